@@ -236,7 +236,7 @@ def run(r):
     stdlib = set(core.tables()["stdlib_modules"]) if proof_ok or os.path.exists(os.path.join(core.CACHE, "tables.json")) else set()
     rnd = random.Random(r.seed)
     ncfg, cfg_bad, cfg_corr = explore_config(r, h1, rnd, 120 if quick else 3000)
-    results, srv_bad = explore_server(r, h1, rnd, int(os.environ.get("VERIF_CASES", 14 if quick else 300)), stdlib)
+    results, srv_bad = explore_server(r, h1, rnd, int(os.environ.get("VERIF_CASES", 36 if quick else 300)), stdlib)
     listed = runner.listed_classes(PID, CLASS_BITS)
     hits = collections.Counter()
     prop_fail, corr_fail = [], []
